@@ -9,24 +9,24 @@ PY = "/venv/bin/python"
 BUILT = {
     "C05": ("§4.5", "input-trie enumeration of the tokenizer plus run families; deviation-bounded exhaustive "
             "enumeration of token-prefixes and single-token edits (k = 0, 1, 2) of carrier files on the real pipeline "
-            "under a deterministic fuel counter",
+            "under a deterministic fuel counter; the same prefix/edit enumeration over the sample inputs of /verif/corpus",
             "Every string of the bounded tries and run families must lex without exception; every carrier, every token "
             "prefix (with/without final NL) and every delete/insert/replace/swap over a 24-kind token alphabet must end in "
             "a verdict or CParsingError -- never another exception, never fuel exhaustion; representatives also through main().",
             "Fuel (steps of Context.peek_token / Lexer.raw_peek) stands for termination; a loop that calls neither would only "
             "be caught by the wall-clock limit of the harness."),
     "C17": ("§4.17", "differential exhaustive enumeration: every opaque-text site of the carrier/enriched files x every "
-            "same-width replacement built from code-like lexemes (deviation bound 1, pairs in thorough)",
+            "same-width replacement built from code-like lexemes (deviation bound 1, pairs in thorough); the sample inputs at token level",
             "Two runs of the real pipeline per case; the (level, code, line, col) diagnostics must be identical.",
             "Replacements never form the site's delimiter, a backslash, a newline or a trigraph; the 42 header and "
             "#include paths are excluded by the property."),
     "C18": ("§4.18", "differential exhaustive enumeration: every user identifier of every carrier file renamed alone to "
-            "each member of its same-length/same-class pool, and all identifiers together under each letter map",
+            "each member of its same-length/same-class pool, and all identifiers together under each letter map; the sample inputs at token level",
             "Two runs of the real pipeline per case; diagnostics must be identical in code, line and column.",
             "Identifier classes come from the model's piece tags; keywords and names the tool treats specially are never "
             "produced; the case pattern is part of the class."),
     "C19": ("§4.19", "differential exhaustive enumeration over insertion points: header prepended (L1), a comment line at "
-            "every top-level point (L2), six conforming functions appended (L3) for every carrier file",
+            "every top-level point (L2), six conforming functions appended (L3) for every carrier file and every sample input (points from the pop trace)",
             "The diagnostics of the edited file must be exactly the shifted diagnostics of the original (L1 minus the one "
             "INVALID_HEADER).",
             "Top-level points come from the model's line kinds; points between two empty lines are excluded."),
@@ -40,13 +40,13 @@ BUILT = {
             "and are only counted."),
     "C12": ("§4.12", "deviation-bounded exhaustive enumeration: every respelling subset (k = 0,1,2,all) and every "
             "token-boundary splice of carrier files, every respelling subset and splice of all punctuator sequences "
-            "up to length 3/4",
+            "up to length 3/4; single respellings and splices at every token of the sample inputs",
             "Token (type, value) sequences must be identical under every explored respelling/splice; for brace and bracket "
             "respellings the (level, code, line) diagnostics must be identical too.",
             "A respelled punctuator is separated from its neighbours by a blank (maximal munch across the boundary is C's "
             "behaviour); a splice after a // comment is excluded."),
     "C13": ("§4.13", "exhaustive enumeration of stdheader template instances x leading contexts, of every structural "
-            "mutation H1-H11, and of all leading-line sequences with <= 2 deviating line kinds (header state machine)",
+            "mutation H1-H11 (in process and through the command as file and as inline content), and of all leading-line sequences with <= 2 deviating line kinds (header state machine)",
             "Every template instance in every leading context must yield zero INVALID_HEADER, every single structural "
             "mutation exactly one; the two-flag header machine is driven through every 13-line leading sequence with at "
             "most 2 substituted kinds.",
@@ -57,7 +57,7 @@ BUILT = {
             "For every name and body the correct guard must be accepted and each guard mutation must yield its "
             "HEADER_PROT_* diagnostic on the guard line concerned; the same texts under a .c name must get none.",
             "Trusts GUARD(name) = upper-case with dots replaced, as the property defines it."),
-    "C16": ("§4.16", "exhaustive enumeration of the option lattice (144 vectors) x carrier files through the real "
+    "C16": ("§4.16", "exhaustive enumeration of the option lattice (156 vectors) x carrier files, edge files and sample inputs through the real "
             "main(), comparing a presentation-independent parse of the output",
             "Every combination of colours, format, -o, debug level and -R value is run on every file of the carrier sets "
             "that reaches a verdict (conforming, one-violation and #define-dense files); verdict and diagnostics must be "
@@ -74,7 +74,8 @@ BUILT = {
     "C06": ("§4.6", "explicit-state search over histories of processed files with deduplication on a generic snapshot "
             "of the process-level state, each history run in a child forked from a pristine image; exhaustive "
             "permutation family of the rules-directory listing in fresh interpreters",
-            "BFS to closure over the global state plus all un-merged histories of length <= 2/3 over a 12-file pool "
+            "BFS to closure over the global state (the sample inputs as additional one-file polluters), a victim corpus "
+            "observed from every distinct state, plus all un-merged histories of length <= 2/3 over a 12-file pool "
             "(clean/erroneous/fatal/#if-failure/deep-recursion/...); every file's observation must equal its "
             "observation alone; listing orders (reverse, rotations, transpositions, shuffles) must not change the rule "
             "tables nor any diagnostic.",
@@ -82,10 +83,11 @@ BUILT = {
             "generic walk of mc/props/c06.py global_state() to see all surviving state."),
     "C04": ("§4.4", "exhaustive history search over file-class sequences (length 0..4) x argument modes through the "
             "real main(), against a 6-line reference model of verdicts and exit status",
-            "All 340 class sequences as explicit paths, all multisets as a directory / as cwd and the empty selections "
+            "All class sequences (7 classes, each what it is by construction) as explicit paths, all multisets as a directory / as cwd and the empty selections "
             "are run through main() in process (short ones and failures also as a real subprocess); verdict lines must "
             "equal the model's for exactly the analysed files, in order; exit status 0 iff every selected file is OK.",
-            "Trusts the reference model (isolated verdict of each file) and that in-process main() equals the command "
+            "Trusts the reference model (the verdict class of each file by construction, cross-checked against its isolated "
+            "run) and that in-process main() equals the command "
             "(cross-checked against a subprocess on every sequence of length <= 2)."),
     "C03": ("§4.3", "exhaustive enumeration of every (limit, context) chain n = L-3..L+6 on the real pipeline with an "
             "iff oracle computed by the reference model",
@@ -103,7 +105,10 @@ BUILT = {
             "(test-side wrappers); exhaustive insertion of unrecognisable fragments at every model-state representative",
             "On every transition of the product graph the pops must tile the token list, start at column 1, end at "
             "NEWLINE, equal the model's statement count and scope stack; every fragment x every representative x "
-            "{middle, last line with/without NL} must end in CParsingError when any token took the unrecognised path.",
+            "{middle, last line with/without NL} must end in CParsingError when any token took the unrecognised path; "
+            "a strict fragment (one that can neither start nor continue a statement) inserted after every representative and "
+            "at every line boundary of the conforming carriers must not leave the file OK!; partition invariants on "
+            "every line-prefix of the sample inputs.",
             "Trusts the statement counts/scope stack of mc/model/norm.py and the implementation's own notion of "
             "'unrecognised' (a one-token pop without primary match)."),
     "C01": ("§4.1", "explicit-state breadth-first search of the product (reference model of conforming files x canonical "
